@@ -44,6 +44,17 @@ func mhCid(n int) cid.Cid {
 // runLocal executes a sequential history on a fresh Receiver (no host) with the given CID
 // numbering; same observation rules as recvdrv.Run.
 func runLocal(cfg recvdrv.Config, ops []recvdrv.Op, wd time.Duration, cidOf func(int) cid.Cid) []recvdrv.Obs {
+	return runLocalWith(cfg, ops, wd, cidOf, func(opts ...announce.Option) *announce.Receiver {
+		r, err := announce.NewReceiver(nil, "", opts...)
+		if err != nil {
+			panic(err)
+		}
+		return r
+	})
+}
+
+// runLocalWith: the same on a receiver built by mk (e.g. with a host, a topic and WithResend)
+func runLocalWith(cfg recvdrv.Config, ops []recvdrv.Op, wd time.Duration, cidOf func(int) cid.Cid, mk func(...announce.Option) *announce.Receiver) []recvdrv.Obs {
 	opts := []announce.Option{announce.WithFilterIPs(cfg.FilterIPs)}
 	peers := map[peer.ID]int{}
 	cids := map[string]int{}
@@ -59,10 +70,7 @@ func runLocal(cfg recvdrv.Config, ops []recvdrv.Op, wd time.Duration, cidOf func
 			return ok && cfg.Allowed(i)
 		}))
 	}
-	r, err := announce.NewReceiver(nil, "", opts...)
-	if err != nil {
-		panic(err)
-	}
+	r := mk(opts...)
 	defer closeBounded(r)
 	if cfg.Cap > 0 {
 		r.VerifSetCacheSize(cfg.Cap)
